@@ -489,23 +489,24 @@ let rec pa_map_s chk s =
     (t_if ((&&) (is_For s) (loop_mode_is_Par s))
       (t_seq (t_try (t_seq (t_check chk s) t_skip) (t_seq (t_err s) t_skip))
         t_skip) t_skip)
-    (match s with
-     | If (_, body, orelse) ->
-       t_seq
-         (let rec go = function
-          | [] -> t_skip
-          | x :: r -> t_seq (pa_map_s chk x) (go r)
-          in go body)
-         (let rec go = function
-          | [] -> t_skip
-          | x :: r -> t_seq (pa_map_s chk x) (go r)
-          in go orelse)
-     | For (_, _, _, body, _) ->
-       let rec go = function
-       | [] -> t_skip
-       | x :: r -> t_seq (pa_map_s chk x) (go r)
-       in go body
-     | _ -> t_skip)
+    (t_seq
+      (match s with
+       | If (_, body, orelse) ->
+         t_seq
+           (let rec go = function
+            | [] -> t_skip
+            | x :: r -> t_seq (pa_map_s chk x) (go r)
+            in go body)
+           (let rec go = function
+            | [] -> t_skip
+            | x :: r -> t_seq (pa_map_s chk x) (go r)
+            in go orelse)
+       | For (_, _, _, body, _) ->
+         let rec go = function
+         | [] -> t_skip
+         | x :: r -> t_seq (pa_map_s chk x) (go r)
+         in go body
+       | _ -> t_skip) t_skip)
 
 (** val pa_map_stmts : (stmt -> bool) -> stmt list -> eff **)
 
